@@ -215,19 +215,50 @@ def check_timeline(spec, o, who='sim'):
         if not o.yearvec[i] > o.yearvec[i - 1]:
             fail('monotone', 'yearvec', f'yearvec[{i}]={float(o.yearvec[i])} is not after yearvec[{i-1}]')
             break
-    # year <-> date: the same instant to one calendar day
+    # year <-> date: the same instant.  Calendar day/week/month timelines derive the year from the date (exact to
+    # time_eps); numeric and year-unit timelines derive the date from the year (nearest day: half a day)
+    derived_from_date = (not o.numeric) and dunit != 'year'
     for i in range(n):
         y = o.yearvec[i]
         if y < 1: break
-        inst = year_to_day_exact(y)
-        if abs(inst - o.datevec[i].toordinal()) > 1:
-            fail('representations', 'year-vs-date', f'yearvec[{i}]={float(y)} is day {float(inst):.2f} but datevec[{i}]={o.datevec[i]} is day {o.datevec[i].toordinal()}')
-            break
+        if derived_from_date:
+            if abs(date_to_year(o.datevec[i]) - y) > TOL:
+                fail('representations', 'year-vs-date', f'yearvec[{i}]={float(y)} but datevec[{i}]={o.datevec[i]} is year {float(date_to_year(o.datevec[i])):.6f}')
+                break
+        else:
+            inst = year_to_day_exact(y)
+            if abs(inst - o.datevec[i].toordinal()) > F(1, 2) + TOL * 366:
+                fail('representations', 'year-vs-date', f'yearvec[{i}]={float(y)} is day {float(inst):.2f} but datevec[{i}]={o.datevec[i]} is day {o.datevec[i].toordinal()}')
+                break
+    # elapsed time <-> date on numeric day/week/month timelines: tvec[i] units after the first date, to the calendar day
+    # (the year has 365.25 days on the numeric axis: a day of slack per crossed year boundary is inherent)
+    if o.numeric and dunit in ('day', 'week', 'month') and n and o.yearvec[0] >= 1:
+        tu = UNIT_DAYS[dunit]
+        for i in range(n):
+            days = (o.datevec[i] - o.datevec[0]).days
+            if abs(days - o.tvec[i] * tu) > 2:
+                fail('representations', 'elapsed-vs-date', f'tvec[{i}]={float(o.tvec[i])} {dunit}(s) = {float(o.tvec[i]*tu):.2f} days but datevec[{i}]={o.datevec[i]} is {days} days after datevec[0]={o.datevec[0]}')
+                break
     # one result entry per point
     for name, ln in sorted(o.reslens.items()):
+        if ln == -1:
+            fail('results-timevec', 'entries', f'the timevec of result {name[:-len(".timevec-entries")]} is not its owner\'s timevec')
+            break
         if ln != n:
             fail('results-len', 'shape', f'result {name} has {ln} entries for {n} time points')
             break
+    # now(): every representation read at the same index min(ti, npts-1)
+    for rec in getattr(o, 'now', []):
+        idx = min(rec['ti'], n - 1)
+        native = float(o.timevec[idx]) if o.numeric else o.datevec[idx].isoformat()
+        want = {'None': native, 'time': native, 'none': native, 'date': o.datevec[idx].isoformat(), 'year': float(o.yearvec[idx]), 'tvec': float(o.tvec[idx])}
+        bad = [k for k, w in want.items() if (abs(rec[k] - w) > float(TOL) if isinstance(w, float) and isinstance(rec[k], float) else rec[k] != w)]
+        if bad:
+            fail('now', 'representation', f"now({bad[0]}) at ti={rec['ti']} gives {rec[bad[0]]!r} but entry {idx} of that representation is {want[bad[0]]!r}")
+            break
+    for prob in getattr(o, 'copies', []):
+        fail('copy', 'differs', f'a copy of the Time object is not the same timeline: {prob}')
+        break
     return fails
 
 
@@ -247,21 +278,43 @@ def check_placement(sim_spec, so, mod_spec, mo, who='module'):
             fail('monotone', f'abstvec[{i}]={float(mo.abstvec[i])} is not after abstvec[{i-1}]={float(mo.abstvec[i-1])}')
             return fails, None
     both_numeric = so.numeric and mo.numeric
-    if both_numeric and su == mu:
+    def raw_offset(i):
+        """ is abstvec[i] the raw formula tvec·ratio + (module start − sim start) with different start numbers? """
+        sa, sb = num(mod_spec['start']), num(sim_spec['start'])
+        if sa == sb or su == 'unitless' or mu == 'unitless': return False
+        return abs(mo.abstvec[i] - (mo.tvec[i] * UNIT_DAYS[mu] / UNIT_DAYS[su] + (sa - sb))) <= TOL
+    zero_asym = both_numeric and ((num(sim_spec['start']) == 0) != (num(mod_spec['start']) == 0))
+    if both_numeric and su == mu and (su == 'unitless' or (su == 'year' and not zero_asym) or num(sim_spec['start']) == num(mod_spec['start'])):
         s0 = num(sim_spec['start'])
         for i in range(n):
             if abs(mo.abstvec[i] - (mo.timevec[i] - s0)) > TOL:
                 fail('numeric-same-unit', f'abstvec[{i}]={float(mo.abstvec[i])} but timevec[{i}]-sim.start={float(mo.timevec[i]-s0)}')
                 break
         return fails, None
-    if both_numeric and su not in ('year', 'unitless') and num(sim_spec['start']) != num(mod_spec['start']):
-        return fails, 'numeric starts differ in a sim whose unit is not the year: the offset has no unambiguous calendar meaning'
+    if both_numeric and su not in ('year', 'unitless'):
+        # a numeric start is a YEAR in yearvec/datevec; the elapsed axis must agree with those instants (to the day the
+        # numeric calendar resolves)
+        tu = UNIT_DAYS[su]
+        sa, sb = num(mod_spec['start']), num(sim_spec['start'])
+        ratio = UNIT_DAYS[mu] / tu
+        for i in range(n):
+            if so.yearvec[0] < 1 or mo.yearvec[i] < 1: break
+            days = (mo.datevec[i] - so.datevec[0]).days
+            if abs(mo.abstvec[i] * tu - days) > 2:
+                raw = raw_offset(i)
+                fail('numeric-start-offset-raw' if raw else 'day-sim',
+                     f'abstvec[{i}]={float(mo.abstvec[i])} {su}(s) but datevec[{i}]={mo.datevec[i]} is {days} days after the sim start {so.datevec[0]}'
+                     + (f' (the starts {mod_spec["start"]} and {sim_spec["start"]} are years in yearvec/datevec but their difference is added as {su}s)' if raw else ''))
+                break
+        return fails, None
     if su in ('year', 'unitless'):
         for i in range(n):
             exp = mo.yearvec[i] - so.yearvec[0]
             if abs(mo.abstvec[i] - exp) > TOL:
-                fail('year-sim', f'abstvec[{i}]={float(mo.abstvec[i])} years but yearvec[{i}]-sim.yearvec[0]={float(exp)}')
-                break
+                raw = both_numeric and zero_asym and raw_offset(i)
+                fail('numeric-start-offset-raw' if raw else 'year-sim', f'abstvec[{i}]={float(mo.abstvec[i])} years but yearvec[{i}]-sim.yearvec[0]={float(exp)}'
+                     + (' (a numeric start of 0 is the default start year in yearvec/datevec, but the offset between module and sim is the raw difference of the start numbers)' if raw else ''))
+                return fails, None
         # and the years agree with the dates to ~a day
         for i in range(n):
             days = (mo.datevec[i] - so.datevec[0]).days
